@@ -681,7 +681,11 @@ def _tensordot():
         c = _td_candidates(ctx)
         if not c:
             return None
-        a, b, mode, k = ctx.rnd.choice(c)
+        # complete contraction over one operand with pass-through cores of the other left over is its own code path in
+        # every mode (and the one where results used to take over the operand's arrays): make it as likely as the rest
+        w = [6.0 if (k == ctx.meta(a)[0] and ctx.meta(b)[0] >= k + 2) or (k == ctx.meta(b)[0] and ctx.meta(a)[0] >= k + 2)
+             else (2.0 if k in (ctx.meta(a)[0], ctx.meta(b)[0]) else 1.0) for a, b, mode, k in c]
+        a, b, mode, k = ctx.rnd.choices(c, w)[0]
         ow = ctx.rnd.random() < 0.25 and a != b
         rec = {"op": "tensordot", "in": {"self": a, "other": b}, "args": {"num_axes": k, "mode": mode, "overwrite": ow}}
         rec["dest"] = [] if ow else ctx.dest(1)
@@ -1710,7 +1714,7 @@ def swarm_config(seed, faults):
         "cplx_p": rnd.choice((0.0, 0.0, 0.3, 1.0)),
         "length": rnd.choice((3, 5, 8, 12, 20, 40, 70) if deep else (3, 5, 8, 12, 20, 40)),
         "groups": groups,
-        "directed_p": rnd.choice((0.0, 0.3, 0.5, 0.8)),
+        "directed_p": rnd.choice((0.3, 0.5, 0.8, 0.9)),
         "repeat_p": rnd.choice((0.0, 0.1, 0.1, 0.3)),
         # swarm focus: in 40 % of the runs one randomly chosen operation is made ten times as likely, so that rare
         # operations (and rare *pairs* of identical calls to them) get deep histories of their own
@@ -1778,7 +1782,8 @@ def _directed(ctx):
             if ci == 0 and d >= 2:
                 cands.append((3 if fl else 1, {"op": "ortho_left", "in": {"self": i}, "dest": [], "args": {}}))
             if is_vec(m) and d >= 2 and 1 <= ci + 1 <= d - 1:
-                cands.append((6, {"op": rnd.choice(("svd", "pinv")), "in": {"self": i}, "dest": ctx.dest(2),
+                # the centre-core gesvd (overwrite_a=True) writes in place exactly when that reshape is an F-contiguous view
+                cands.append((18 if fl else 2, {"op": rnd.choice(("svd", "pinv")), "in": {"self": i}, "dest": ctx.dest(2),
                                   "args": {"index": ci + 1, "ortho_l": False, "ortho_r": False, "overwrite": True}}))
         cands.append((1, {"op": "ortho", "in": {"self": i}, "dest": [], "args": {}}))
     if not cands:
